@@ -26,6 +26,7 @@ ENUMS = {
     'EnI32': ('std::int32_t', [('A', 0), ('B', -70000)]),
     'EnU64': ('std::uint64_t', [('A', 0), ('B', 5000000000)]),
     'EnI64': ('std::int64_t', [('A', 0), ('B', -5000000000)]),
+    'EnChar': ('char', [('A', 0), ('B', 100), ('C', 233)]),   # plain char encodes as an unsigned byte whatever its signedness
     'ErrA': ('std::int32_t', [('None', 0), ('A', 1), ('B', -5), ('C', 300), ('D', 70000)]),
     'ErrB': ('std::uint8_t', [('None', 0), ('A', 1), ('B', 255)]),
     'ErrC': ('std::int64_t', [('None', 0), ('A', -1), ('B', 5000000000)]),
@@ -237,7 +238,7 @@ class Pool:
         out.append('namespace %s {' % self.ns)
         for name, (und, items) in ENUMS.items():
             out.append('enum class %s : %s { %s };' % (name, und, ', '.join(
-                '%s = %s' % (n, ('%dll' % v if v < 0 else '%dull' % v)) for n, v in items)))
+                '%s = %s' % (n, ('static_cast<char>(%d)' % v if und == 'char' else '%dll' % v if v < 0 else '%dull' % v)) for n, v in items)))
         post = []  # external annotations, emitted right after the type in the same namespace
         for name in self.order:
             d = self.named[name]
@@ -410,8 +411,9 @@ def curated():
     # scalars
     for c in ['bool', 'char', 'int', 'float', 'double', 'std::size_t'] + INTS:
         A(P(c))
-    for e in ['EnU8', 'EnI8', 'EnU16', 'EnI16', 'EnU32', 'EnI32', 'EnU64', 'EnI64']:
+    for e in ['EnU8', 'EnI8', 'EnU16', 'EnI16', 'EnU32', 'EnI32', 'EnU64', 'EnI64', 'EnChar']:
         A(('enum', e))
+    A(('vec', ('enum', 'EnChar'))); A(p.struct([('e', ('enum', 'EnChar')), ('n', i8)], name='StEnChar'))
     for c in CHARS:
         A(('str', c))
     # integral sequences (BIN)
@@ -438,6 +440,7 @@ def curated():
     # reference_wrapper
     A(('ref', i32)); A(('ref', ('vec', string)))
     # Optional / Result / Variant
+    A(('opt', ('opt', u8))); A(('opt', ('opt', string))); A(('vec', ('opt', ('opt', i16)))); A(p.struct([('a', ('opt', ('opt', ('vec', u8)))), ('b', u8)], name='StOptOpt'))
     A(('opt', i32)); A(('opt', string)); A(('opt', ('vec', u16))); A(('opt', ('arr', u64, 200)))
     A(('res', 'ErrA', i32)); A(('res', 'ErrB', string)); A(('res', 'ErrC', ('vec', ('pair', u8, P('float')))))
     A(('res', 'ErrA', ('opt', u8))); A(('opt', ('res', 'ErrB', u16)))
